@@ -14,7 +14,7 @@ pub fn meta() -> PropertyMeta {
     PropertyMeta {
         id: "C07",
         level: "exploration",
-        rule: "literals are built from values: for each of the ten integer types, every bound B in {MIN, MAX, 0, 2^24, 2^53, powers of ten, random in range} plus offsets -3..3 plus a fraction on / just below / just above one half (or .4, .6, none, random digits), rendered in every NR1/NR2/NR3 spelling (signs, leading/trailing zeros, bare dot, exponent shifts, E/e); plus zero in every spelling, wide random literals (1..40 digits, exponent -420..420), non-decimal #H/#Q/#B literals over the whole u64 range, MIN/MAX keywords and near misses, suffixed and non-numeric elements. For 8/16-bit targets every integer in range (+-2) x fractions {none,.0,.4,.5,.6,.49999,.50001,.49999999999999994,.49999997} x two spellings is enumerated exhaustively. Oracle: exact decimal arithmetic. Non-trivial: value within 2 of a type bound, or within 1 of zero with a fractional part, or spelled with an exponent or a bare dot, or a 64-bit value needing more than 53 bits.",
+        rule: "literals are built from values: for each of the ten integer types, every bound B in {MIN, MAX, 0, 2^24, 2^53, powers of ten, random in range} plus offsets -3..3 plus a fraction on / just below / just above one half (or .4, .6, none, random digits), rendered in every NR1/NR2/NR3 spelling (signs, leading/trailing zeros, bare dot, exponent shifts, E/e); plus zero in every spelling, wide random literals (1..40 digits, exponent -420..420), non-decimal #H/#Q/#B literals over the whole u64 range and (as text) 2^64..2^128, which must be rejected, MIN/MAX keywords and near misses, suffixed and non-numeric elements. For 8/16-bit targets every integer in range (+-2) x fractions {none,.0,.4,.5,.6,.49999,.50001,.49999999999999994,.49999997} x two spellings is enumerated exhaustively. Oracle: exact decimal arithmetic. Non-trivial: value within 2 of a type bound, or within 1 of zero with a fractional part, or spelled with an exponent or a bare dot, or a 64-bit value needing more than 53 bits.",
         assumptions: &[
             "admissible results: the exact rounding of the literal (both neighbours at an exact tie) and the exact rounding of its correctly rounded intermediate float (f64; f32 as well for 8/16-bit targets) -- i.e. exact up to the resolution of that float; all admissible integers in range => must be Ok(one of them); all out of range => must be -222; otherwise either",
             "a non-keyword character datum must be rejected with an error (any code), a suffixed / string / block / expression element with a command error",
@@ -27,6 +27,8 @@ pub fn meta() -> PropertyMeta {
 pub enum Case {
     Decimal { ty: IntTy, lit: String },
     NonDecimal { ty: IntTy, radix: char, value: u64, lower: bool },
+    /// a non-decimal literal denoting a value above u64::MAX (digits as text)
+    NonDecimalHuge { radix: char, digits: String },
     Keyword { ty: IntTy, word: String },
     Suffixed { ty: IntTy, lit: String, suffix: String },
     Other { ty: IntTy, kind: u8, payload: String },
@@ -123,6 +125,26 @@ pub fn check(case: &Case, obs: &Obs) -> CheckResult {
             }
             Ok(())
         }
+        Case::NonDecimalHuge { radix, digits } => {
+            obs.label("non-decimal literal above u64::MAX");
+            obs.nontrivial(case);
+            let r = match radix { 'H' => 16, 'Q' => 8, _ => 2 };
+            let denotes = u128::from_str_radix(digits, r).ok();
+            if denotes.map_or(false, |v| v <= u64::MAX as u128) {
+                fail!("harness-literal", "generated 'huge' literal {digits} fits u64");
+            }
+            let text = format!("#{radix}{digits}");
+            if let Some(Token::NonDecimalNumericProgramData(v)) = lex_single(text.as_bytes()) {
+                fail!("nondecimal-wrapped", "{text} denotes a value above u64::MAX but is lexed as the literal {v} instead of being rejected");
+            }
+            // also in a parameter list, where the tokenizer carries on after the element
+            let text2 = format!("{text},1");
+            let first = scpi::parser::tokenizer::Tokenizer::new_params(text2.as_bytes()).next();
+            if let Some(Ok(Token::NonDecimalNumericProgramData(v))) = first {
+                fail!("nondecimal-wrapped", "{text2}: first element lexed as the literal {v}");
+            }
+            Ok(())
+        }
         Case::Keyword { ty, word } => {
             obs.label("character datum");
             let (min, max) = ty.range();
@@ -200,10 +222,26 @@ fn case_strategy() -> impl Strategy<Value = Case> {
         12 => (int_ty_strategy(), wide_literal()).prop_map(|(ty, lit)| Case::Decimal { ty, lit }),
         8 => (int_ty_strategy(), prop_oneof![Just('H'), Just('Q'), Just('B')], nondecimal_value(), any::<bool>())
             .prop_map(|(ty, radix, value, lower)| Case::NonDecimal { ty, radix, value, lower }),
+        2 => nondecimal_huge(),
         4 => (int_ty_strategy(), keyword()).prop_map(|(ty, word)| Case::Keyword { ty, word }),
         3 => (int_ty_strategy(), wide_literal(), "[A-Za-z][A-Za-z0-9]{0,5}").prop_map(|(ty, lit, suffix)| Case::Suffixed { ty, lit, suffix }),
         3 => (int_ty_strategy(), 0u8..3, "[ -~]{0,8}").prop_map(|(ty, kind, payload)| Case::Other { ty, kind, payload }),
     ]
+}
+
+/// Non-decimal text denoting 2^64 .. 2^72: every leading digit, just above the limit, many digits.
+fn nondecimal_huge() -> impl Strategy<Value = Case> {
+    (prop_oneof![Just('H'), Just('Q'), Just('B')], prop_oneof![
+        3 => (0u128..1 << 8, any::<u64>()).prop_map(|(hi, lo)| ((hi.max(1)) << 64) | lo as u128),
+        2 => (0u64..4).prop_map(|k| (1u128 << 64) + k as u128),
+        2 => (1u128..8, 0u32..3, any::<u64>()).prop_map(|(d, k, lo)| (d << (63 + k)) | (lo as u128 >> 2)),
+        1 => Just(u128::MAX),
+    ], 0usize..3)
+        .prop_map(|(radix, v, zeros)| {
+            let v = v.max(1u128 << 64);
+            let digits = match radix { 'H' => format!("{v:X}"), 'Q' => format!("{v:o}"), _ => format!("{v:b}") };
+            Case::NonDecimalHuge { radix, digits: format!("{}{digits}", "0".repeat(zeros)) }
+        })
 }
 
 fn nondecimal_value() -> impl Strategy<Value = u64> {
